@@ -1592,5 +1592,5 @@ class XsdAlternative(XsdComponent):
         try:
             result = list(self.token.select(context=XPathContext(elem)))
             return self.token.boolean_value(result)
-        except (TypeError, ValueError):
+        except (ElementPathError, TypeError, ValueError):
             return False
